@@ -1,6 +1,7 @@
 import Pcore.Proofs.SliceHeapRefine
 import Pcore.Proofs.Caches
 import Pcore.Proofs.SliceHeapAlias
+import Pcore.Proofs.SliceHeapFresh
 import Pcore.Generated.SliceIdioms
 import Pcore.Generated.CacheFacts
 import Pcore.Proofs.ImmutResolve
@@ -40,6 +41,11 @@ Full statement / proved / missing
                       any such row.
 * `C08_sealed`      — the sealing invariant as a theorem of its own: extending a history leaves every existing backing
                       array untouched, cell by cell (`heap' = heap ++ new arrays`).
+* `C08_new_results_fresh`, `C08_sort_fresh` — FRESH BACKING: the result of every operation that computes a new sequence
+                      (Add, AddAll, Delete, Map, Select, Sort, Merge, Keys, MutableHashValue.Put … — all `NewSite`s) lives
+                      in a backing array that the step allocated: no pool value that existed before has a slice of that
+                      array, and the array holds exactly the result (then spare cells).  Instance for `Sort` on an Array
+                      after an arbitrary history (`Array.Sort` copies, then sorts the copy).
 * `C08_pointer_stable` — pointer = copy: what a reference to pool value `n` denotes (what `a.Add(b)` stores for `b`) is the
                       same at every later time; this is the theorem behind modelling a nested container by its content.
 * `C08_stable`      — corollary: what value `i` holds at any two later times is the same.
@@ -153,6 +159,47 @@ theorem C08_pointer_stable (P : Policy) (tbl : Table) (ht : IdiomsSafe tbl) (ops
     · rw [look_stable ops n j j' hn hjj hj .arr xs (by decide) hl]; exact h
     · rw [look_stable ops n j j' hn hjj hj .hsh xs (by decide) hl]; exact h
     · cases h
+
+/-- a policy with spare capacity everywhere (used by the non-vacuity examples) -/
+def samplePolicy' : Policy := ⟨fun c _ => 2 * c + 1, fun _ _ _ => 4⟩
+
+/-- FRESH BACKING.  Under a safe table, a step that computes a new sequence stores it in an array allocated by that step:
+    the new pool entry is a slice from cell 0 of a NEW array that holds the result followed by spare cells, the arrays
+    that existed are as they were, and no earlier pool value has a slice of the new array. -/
+theorem C08_new_results_fresh (P : Policy) (tbl : Table) (ht : IdiomsSafe tbl) (ops : List Op) (op : Op)
+    (site : NewSite) (k : Kind) (r : Nat) (res : List Val) (kill : Bool)
+    (h : opSem (runHeap P tbl ops).look op = .new site k r res kill) :
+    ∃ sl sp, (runHeap P tbl (ops ++ [op])).pool = (runHeap P tbl ops).pool ++ [.val k sl] ∧
+      (runHeap P tbl (ops ++ [op])).heap = (runHeap P tbl ops).heap ++ [res ++ List.replicate sp .undef] ∧
+      sl = ⟨(runHeap P tbl ops).heap.length, 0, res.length, res.length + sp⟩ ∧
+      (runHeap P tbl (ops ++ [op])).heap.read sl = res ∧
+      ∀ e ∈ (runHeap P tbl ops).pool, ∀ k' sl', e = HEntry.val k' sl' → sl'.arr ≠ sl.arr := by
+  obtain ⟨sp, hs⟩ := step_new_fresh P tbl ht (runHeap P tbl ops) op h
+  rw [runHeap_snoc, hs]
+  refine ⟨_, sp, rfl, rfl, rfl, ?_, ?_⟩
+  · exact read_mkFresh _ res sp
+  · intro e he k' sl' hk
+    have := run_WF P tbl ht ops e he k' sl' hk
+    simp only
+    omega
+
+/-- `Sort` on an Array, after any history: the sorted sequence is stored in a new array; the receiver's cells (and
+    everybody else's) are not touched, and nothing that existed shares the new array -/
+theorem C08_sort_fresh (P : Policy) (tbl : Table) (ht : IdiomsSafe tbl) (ops : List Op) (r : Nat) (xs : List Val)
+    (h : (runHeap P tbl ops).look r = some (.arr, xs)) :
+    ∃ sl sp, (runHeap P tbl (ops ++ [.sort r])).pool = (runHeap P tbl ops).pool ++ [.val .arr sl] ∧
+      (runHeap P tbl (ops ++ [.sort r])).heap = (runHeap P tbl ops).heap ++ [sortVals xs ++ List.replicate sp .undef] ∧
+      (runHeap P tbl (ops ++ [.sort r])).heap.read sl = sortVals xs ∧
+      ∀ e ∈ (runHeap P tbl ops).pool, ∀ k' sl', e = HEntry.val k' sl' → sl'.arr ≠ sl.arr := by
+  have hop : opSem (runHeap P tbl ops).look (.sort r) = .new .arrSort .arr r (sortVals xs) false := by
+    simp [opSem, Op.recv?, h, arrSem]
+  obtain ⟨sl, sp, h1, h2, _, h4, h5⟩ := C08_new_results_fresh P tbl ht ops (.sort r) _ _ _ _ _ hop
+  exact ⟨sl, sp, h1, h2, h4, h5⟩
+
+/-- non-vacuity: after `[2, 1]` the receiver 0 is an array, so `C08_sort_fresh` applies (and its result is `[1, 2]`) -/
+example : (runHeap samplePolicy' sliceIdioms [.lit (.arr [.int 2, .int 1])]).look 0 = some (.arr, [.int 2, .int 1]) ∧
+    sortVals [.int 2, .int 1] = [.int 1, .int 2] := by
+  constructor <;> rfl
 
 /-- instantiated on the code as it is now -/
 theorem C08_impl (P : Policy) (ops : List Op) :
